@@ -479,7 +479,23 @@ def rule_process_global_state(ctx: Ctx) -> None:
                         why = GLOBAL_ALLOW.get((rel, fn.qual, nm))
                         ctx.ob("C03-4", "G7", fn, f"global {nm}", why is not None,
                                f"{fn.qual} rebinds module global `{nm}`" + (f" — allowed: {why}" if why else ": process-wide state that outlives a simulation"), node=st)
-    ctx.ob("C03-4", "G7", None, "package-wide shared-state scan", True, f"{n_mod} modules scanned for module-/class-level containers mutated at run time", relpath="happysimulator/")
+    # the process-wide generator of the `random` module handed around as if it were an instance RNG (`rng = random`, `x if seed else random`):
+    # every draw then depends on whatever else drew from it earlier in the interpreter
+    n_alias = 0
+    for rel, mod in prog.modules.items():
+        if not rel.startswith(SCOPE):
+            continue
+        names = {nm for nm, (src, what) in mod.imports.items() if src == "random" and what is None}
+        if not names:
+            continue
+        for fn in mod.all_functions:
+            attr_bases = {id(n.value) for n in walk_scope(fn.node) if isinstance(n, ast.Attribute)}
+            for n in walk_scope(fn.node, include_root=False):
+                if isinstance(n, ast.Name) and n.id in names and isinstance(n.ctx, ast.Load) and id(n) not in attr_bases and n.id not in fn.params():
+                    n_alias += 1
+                    ctx.ob("C03-4", "G7", fn, f"uses module `{n.id}` as an RNG object", False,
+                           f"{fn.qual} passes the `random` module itself around as a generator: draws come from the process-wide RNG, shared with everything else in the interpreter (an explicit seed — 0 included — must give `random.Random(seed)`)", node=n)
+    ctx.ob("C03-4", "G7", None, "package-wide shared-state scan", True, f"{n_mod} modules scanned for module-/class-level containers mutated at run time and for the random module used as an object ({n_alias} found)", relpath="happysimulator/")
     ctx.floor("C03-4", 5)
 
 
@@ -488,3 +504,19 @@ def run(ctx: Ctx) -> None:
     ctx.guarded(rule_set_iteration)
     ctx.guarded(rule_counter_reset_and_context)
     ctx.guarded(rule_process_global_state)
+
+
+CS_ = "happysimulator/components/datastore/cached_store.py"
+EP_ = "happysimulator/components/datastore/eviction_policies.py"
+MUTANTS = [
+    ("zipf-falls-back-to-global-rng", "happysimulator/distributions/zipf.py", "        self._rng = random.Random(seed)", "        self._rng = random.Random(seed) if seed else random", "C03-4"),
+    ("random-eviction-unsorted-choice", EP_, "        key = self._rng.choice(sorted(self._keys))", "        key = self._rng.choice(list(self._keys))", "C03-2"),
+    ("invalidate-all-iterates-set", CS_, "        for key in sorted(self._dirty_keys):\n            self._write_back_if_dirty(key)", "        for key in self._dirty_keys:\n            self._write_back_if_dirty(key)", "C03-2"),
+    ("partition-from-builtin-hash", "happysimulator/components/streaming/event_log.py", "        pid = self._get_partition_for_key(key)", "        pid = hash(key) % self._num_partitions", "C03-1"),
+    ("sim-does-not-reset-counter", "happysimulator/core/simulation.py", "        reset_event_counter()\n\n        if duration is not None and end_time is not None:", "        if duration is not None and end_time is not None:", "C03-3"),
+    ("queue-stats-list-on-class", "happysimulator/components/messaging/message_queue.py", ["        self._delivery_latencies: list[float] = []\n", "    def downstream_entities(self) -> list[Entity]:\n        result = list(self._consumers)"],
+     ["", "    _delivery_latencies: list[float] = []\n\n    def downstream_entities(self) -> list[Entity]:\n        result = list(self._consumers)"], "C03-4"),
+]
+REFACTORS = [
+    ("random-eviction-sorted-list", EP_, "        key = self._rng.choice(sorted(self._keys))", "        ordered = sorted(self._keys)\n        key = self._rng.choice(ordered)"),
+]
